@@ -151,14 +151,28 @@ def rule_raw_iter(ctx, repo):
                     if ds is None or repo.fold(ds, fi.module, env={'opcode': v}) != v:
                         problems.append('direct push size is `%s`, not the opcode value' % (norm(ds) if ds is not None else None))
                 else:
-                    terms = length_terms(ds)
+                    terms = length_terms(ds, repo, fi, {'opcode': v})
                     if terms != {(k, 8 * k) for k in range(w)}:
                         problems.append('length of %s is decoded as `%s`: expected %d little-endian byte(s) self[i+k] << 8k' % (c06.opn(v), norm(ds) if ds is not None else None, w))
                     g = {k: val for k, val in p.assume.items() if 'len(self)' in k and 'datasize' not in k and 'data' not in k.split('len(self)')[0][-0:]}
                     want_g = 'i >= len(self)' if w == 1 else 'i + %d >= len(self)' % (w - 1)
-                    if p.assume.get(want_g) is not False:
+                    guarded = p.assume.get(want_g) is False
+                    if not guarded:
+                        # any spelling of "fewer than w bytes left": i + w > len(self), with names folded for this opcode
+                        from ..rules import _Folder, _copy, equiv as _equiv
+                        for gk, gval in p.assume.items():
+                            if gval is False and 'len(self)' in gk:
+                                try:
+                                    gf = _Folder(repo, fi.module, fi.cls, {'opcode': v}).visit(_copy(ast.parse(gk, mode='eval').body))
+                                except SyntaxError:
+                                    continue
+                                if _equiv(gf, 'i + %d > len(self)' % w) is True:
+                                    guarded = True
+                    if not guarded:
                         problems.append('the length bytes of %s are read without the guard `%s` (guards on this path: %s)' % (c06.opn(v), want_g, sorted(k for k in p.assume if 'len(self)' in k)))
-                    if 'i += %d' % w not in texts:
+                    skips = [s_ for s_ in stmts if isinstance(s_, ast.AugAssign) and norm(s_.target) == 'i' and isinstance(s_.op, ast.Add)
+                             and repo.fold(s_.value, fi.module, cls=fi.cls, env={'opcode': v}) == w]
+                    if 'i += %d' % w not in texts and not skips:
                         problems.append('the cursor does not skip the %d length byte(s)' % w)
                 if data != 'data' or 'data = bytes(self[i:i + datasize])' not in texts:
                     problems.append('pushed data is not self[i:i+datasize]')
@@ -185,11 +199,23 @@ def rule_raw_iter(ctx, repo):
             r.ok(key, common.site_of(fi, lp), '%d path(s)' % len(paths))
 
 
-def length_terms(e):
+def length_terms(e, repo=None, fi=None, env=None):
     """self[i+k] << s terms of a little-endian length expression -> {(k, s)}"""
     if e is None:
         return None
     out = set()
+    # int.from_bytes(self[i:i + N], 'little'): N little-endian bytes starting at the cursor
+    if isinstance(e, ast.Call) and norm(e.func) == 'int.from_bytes' and len(e.args) == 2 and repo is not None:
+        order = repo.fold(e.args[1], fi.module)
+        sl = e.args[0]
+        if order == 'little' and isinstance(sl, ast.Subscript) and norm(sl.value) == 'self' and isinstance(sl.slice, ast.Slice) \
+                and sl.slice.lower is not None and norm(sl.slice.lower) == 'i' and sl.slice.upper is not None and sl.slice.step is None:
+            up = sl.slice.upper
+            if isinstance(up, ast.BinOp) and isinstance(up.op, ast.Add) and norm(up.left) == 'i':
+                n = repo.fold(up.right, fi.module, cls=fi.cls, env=env or {})
+                if isinstance(n, int) and 1 <= n <= 8:
+                    return {(k, 8 * k) for k in range(n)}
+        return None
 
     def term(t):
         sh = 0
@@ -253,6 +279,27 @@ def rule_opn_codec(ctx, repo):
 
 
 # ------------------------------------------------------------------------------------------------ C1 coercion
+def path_result(p, other):
+    """the value a traced path returns, through the local it was stored in (if any); None = the argument unchanged"""
+    ret = p.endnode.value if p.end == 'return' and p.endnode is not None else None
+    if ret is None:
+        return None
+    if isinstance(ret, ast.Name) and ret.id == other and not any(isinstance(s, ast.Assign) and norm(s.targets[0]) == other for s in p.stmts()):
+        return None
+    cur = ret
+    for _ in range(4):
+        if not isinstance(cur, ast.Name):
+            break
+        nxt = None
+        for s in p.stmts():
+            if isinstance(s, ast.Assign) and norm(s.targets[0]) == cur.id:
+                nxt = s.value
+        if nxt is None:
+            break
+        cur = nxt
+    return norm(cur)
+
+
 def rule_coercion(ctx, repo):
     r = ctx.rule('C08.C1', 'coercion table: opcode -> 1 byte; 0..16 -> OP_n; -1 -> OP_1NEGATE; other ints -> minimal number push; bytes -> shortest push', engine='TABLE', floor=8)
     ci = repo.get_class(CS)
@@ -280,14 +327,6 @@ def rule_coercion(ctx, repo):
         env = {other: val} if val is not None else {}
         paths = tr.trace(fi.node.body, env)
         key = '%s%s' % (kind, '' if val is None else ':%d' % val)
-        if len(paths) != 1:
-            r.undecided(key, fi.site, 'coercion chain does not fold (%d paths)' % len(paths))
-            continue
-        p = paths[0]
-        res = None
-        for s in p.stmts():
-            if isinstance(s, ast.Assign) and norm(s.targets[0]) == other:
-                res = norm(s.value)
         want = {
             'opcode': {'bytes([%s])' % other},
             'int:0': {'bytes([CScriptOp.encode_op_n(%s)])' % other}, 'int:16': {'bytes([CScriptOp.encode_op_n(%s)])' % other},
@@ -296,7 +335,18 @@ def rule_coercion(ctx, repo):
             'bytes': {'CScriptOp.encode_op_pushdata(%s)' % other}, 'bytearray': {'CScriptOp.encode_op_pushdata(%s)' % other},
             'other': {None},
         }[key]
-        r.check(res in want, key, fi.site, '-> %s' % res, 'coercion of %s gives `%s`; reference: %s' % (key, res, sorted(str(x) for x in want)[0]))
+        if len(paths) != 1:
+            # further conditions on the token: the table prescribes ONE result per token class, so every path must give it
+            atoms = sorted({k for p_ in paths for k in p_.assume})
+            if not all(other in a for a in atoms):
+                r.undecided(key, fi.site, 'coercion chain does not fold (%d paths; conditions %s)' % (len(paths), atoms[:3]))
+                continue
+        results = set()
+        for p in paths:
+            results.add(path_result(p, other))
+        bad = [x for x in results if x not in want]
+        r.check(not bad, key, fi.site, '-> %s' % sorted(str(x) for x in results)[0],
+                'coercion of %s gives `%s`%s; reference: %s' % (key, bad[0] if bad else None, ' on some values of the token (conditions: %s)' % sorted({k for p_ in paths for k in p_.assume})[:2] if len(paths) > 1 else '', sorted(str(x) for x in want)[0]))
     one = repo.module_value(fi.module, 'OP_1NEGATE')
     r.check(one == 0x4f, 'OP_1NEGATE', fi.site, '0x4f', 'OP_1NEGATE is %r' % (one,))
 
@@ -319,8 +369,12 @@ def rule_iter_kinds(ctx, repo):
     small, isi = small_ints(repo)
     dec = repo.get_function(OP + '.decode_op_n')
 
+    def unwrap(t):
+        # CScriptOp(x) is the cached singleton for the byte x: the wrapper does not change what is tested or yielded
+        return re.sub(r'CScriptOp\((\w+)\)', r'\1', t)
+
     def atom(e, path):
-        t = norm(e)
+        t = unwrap(norm(e))
         if t == '%s.is_small_int()' % opv and small is not None:
             v = path.env.get(opv)
             if v is None:
@@ -344,7 +398,15 @@ def rule_iter_kinds(ctx, repo):
         if len(ys) != 1:
             r.violated(key, fi.site, '0x%02x yields %d values' % (v, len(ys)))
             continue
-        y = norm(ys[0])
+        ye = ys[0]
+        for _ in range(4):
+            # a conditional expression: take the arm this opcode selects
+            if isinstance(ye, ast.IfExp):
+                tv = tr.tri(ye.test, paths[0])
+                if tv is None:
+                    break
+                ye = ye.body if tv else ye.orelse
+        y = unwrap(norm(ye))
         if v == 0:
             ok, want = y == '0', 'the integer 0'
         elif push:
@@ -356,7 +418,7 @@ def rule_iter_kinds(ctx, repo):
                 val = repo.fold(dp[0].endnode.value, dec.module, cls=dec.cls, env={'self': v}) if len(dp) == 1 and dp[0].end == 'return' else UNKNOWN
                 ok = val == v - 0x50
         else:
-            ok, want = y in ('CScriptOp(%s)' % opv, opv), 'the opcode itself'
+            ok, want = y == opv, 'the opcode itself'
         r.check(ok, key, fi.site, 'yields %s' % y, 'iterating over opcode 0x%02x (%s) yields `%s`; reference: %s' % (v, c06.opn(v), y, want))
 
 
@@ -376,54 +438,162 @@ def rule_predicates(ctx, repo):
     r = ctx.rule('C08.Q1', 'classification predicates equal their reference definitions (length and byte constraints)', engine='RULES', floor=11)
     ci = repo.get_class(CS)
 
-    def single_return(name):
-        fi = repo.lookup_method(ci, name)
-        body = [s for s in fi.node.body if not (isinstance(s, ast.Expr) and isinstance(s.value, ast.Constant))]
-        if len(body) == 1 and isinstance(body[0], ast.Return):
-            return fi, body[0].value
-        return fi, None
     want = {
-        'is_p2sh': ['len(self) == 23', 'self[0] == 169', 'self[1] == 20', 'self[22] == 135'],
-        'is_witness_v0_keyhash': ['len(self) == 22', "self[0:2] == b'\\x00\\x14'"],
-        'is_witness_v0_nested_keyhash': ['len(self) == 23', "self[0:3] == b'\\x16\\x00\\x14'"],
-        'is_witness_v0_scripthash': ['len(self) == 34', "self[0:2] == b'\\x00 '"],
-        'is_witness_v0_nested_scripthash': ['len(self) == 35', "self[0:3] == b'\"\\x00 '"],
-        'is_unspendable': ['len(self) > 0', 'self[0] == 106'],
+        'is_p2sh': 'len(self) == 23 and self[0] == 169 and self[1] == 20 and self[22] == 135',
+        'is_witness_v0_keyhash': "len(self) == 22 and self[0:2] == b'\\x00\\x14'",
+        'is_witness_v0_nested_keyhash': "len(self) == 23 and self[0:3] == b'\\x16\\x00\\x14'",
+        'is_witness_v0_scripthash': "len(self) == 34 and self[0:2] == b'\\x00 '",
+        'is_witness_v0_nested_scripthash': "len(self) == 35 and self[0:3] == b'\"\\x00 '",
+        'is_unspendable': 'len(self) > 0 and self[0] == 106',
     }
-    for name, w in sorted(want.items()):
-        fi, e = single_return(name)
+    dom = {'self[0]': (0, 255), 'self[1]': (0, 255), 'self[22]': (0, 255), 'len(self)': (0, None), 'op': (0, 255), 'data[0]': (0, 255), 'len(data)': (0, None)}
+
+    def decide(key, fi, e, ref, what):
+        """three-way verdict for a predicate formula against its reference definition"""
         if e is None:
-            r.undecided(name, fi.site, 'not a single return expression')
-            continue
-        got = conjuncts(e, repo, fi)
-        r.check(got == sorted(w), name, fi.site, ' and '.join(got), '%s tests `%s`; reference: %s' % (name, ' and '.join(got), ' and '.join(sorted(w))))
+            r.undecided(key, fi.site, 'the body is not a tree of tests and returns')
+            return
+        v = equiv_folded(e, repo, fi.module, ref, cls=fi.cls, domain=dom)
+        if v is True:
+            r.ok(key, fi.site, what)
+        elif v is False:
+            r.violated(key, fi.site, '%s tests `%s`; reference: %s (they differ at %s)' % (key, norm(e)[:160], ref, equiv.witness))
+        else:
+            r.undecided(key, fi.site, '%s tests `%s`: not comparable with the reference `%s` by the guard algebra' % (key, norm(e)[:160], ref))
+    for name, ref in sorted(want.items()):
+        fi = repo.lookup_method(ci, name)
+        decide(name, fi, common.return_expr(fi, inline_locals=True), ref, ref)
+
+    def element_reject(fi):
+        """for a scan `for (op, data, idx) in self.raw_iter(): ...; return True` (or all(<pred> for ...)): the condition on
+        one element under which the scan answers False, as a formula text over the loop variables -> (text, names) | None"""
+        loops = [n for n in walk_no_nested(fi.node) if isinstance(n, ast.For) and isinstance(n.iter, ast.Call) and norm(n.iter).endswith('self.raw_iter()')]
+        gens = [n for n in ast.walk(fi.node) if isinstance(n, (ast.GeneratorExp, ast.ListComp)) and len(n.generators) == 1
+                and norm(n.generators[0].iter).endswith('self.raw_iter()')]
+        if len(loops) == 1 and not gens:
+            lp = loops[0]
+            names = [x.id for x in ast.walk(lp.target) if isinstance(x, ast.Name)]
+            tr = Tracer(repo, fi.module, cls=fi.cls)
+            try:
+                paths = tr.trace(lp.body, {})
+            except OverflowError:
+                return None
+            disj = []
+            for p in paths:
+                if p.end == 'return':
+                    v = repo.fold(p.endnode.value, fi.module) if p.endnode.value is not None else None
+                    if v is False:
+                        conj = ['(%s)' % a if val else 'not (%s)' % a for a, val in p.assume.items()]
+                        disj.append(' and '.join(conj) if conj else 'True')
+                    elif v is True:
+                        return None  # an element that makes the scan answer True early: not this shape
+                    else:
+                        return None
+                elif p.end == 'raise':
+                    return None
+            # the scan must end in `return True`
+            after = [n for n in walk_no_nested(fi.node) if isinstance(n, ast.Return) and not any(n is x for x in ast.walk(lp))]
+            if not after or any(repo.fold(n.value, fi.module) is not True for n in after if not _in_handler(fi, n)):
+                return None
+            return (' or '.join('(%s)' % d for d in disj) if disj else 'False'), names
+        if len(gens) == 1 and not loops:
+            g = gens[0]
+            par = getattr(g, '_parent', None)
+            if isinstance(par, ast.Call) and norm(par.func) == 'all' and not g.generators[0].ifs:
+                names = [x.id for x in ast.walk(g.generators[0].target) if isinstance(x, ast.Name)]
+                return 'not (%s)' % norm(g.elt), names
+        return None
+
+    def rename(text, names, std):
+        out = text
+        for a, b in zip(names, std):
+            out = re.sub(r'\b%s\b' % re.escape(a), b, out)
+        return out
     # is_push_only: every opcode <= OP_16, invalid pushes -> False
     fi = repo.lookup_method(ci, 'is_push_only')
-    guards = [canon_guard(n.test, repo, fi.module, ci) for n in walk_no_nested(fi.node) if isinstance(n, ast.If)]
-    rets = [norm(n.value) for n in walk_no_nested(fi.node) if isinstance(n, ast.Return)]
-    ok = guards == ['op > 96'] and rets == ['False', 'False', 'True'] and handler_returns(fi, 'CScriptInvalidError', 'False')
-    r.check(ok, 'is_push_only', fi.site, 'False on any opcode above OP_16 or an invalid push, True otherwise', 'is_push_only guards %s returns %s' % (guards, rets))
+    er = element_reject(fi)
+    if er is None:
+        r.undecided('is_push_only', fi.site, 'not a scan over raw_iter() that answers False on a bad element and True at the end')
+    else:
+        e = ast.parse(rename(er[0], er[1], ['op', 'data', 'idx']), mode='eval').body
+        decide('is_push_only', fi, e, 'op > 96', 'False on any opcode above OP_16, True otherwise')
+        r.check(handler_returns(fi, 'CScriptInvalidError', 'False'), 'is_push_only:invalid', fi.site, 'an invalid push answers False', 'is_push_only does not answer False on an invalid push')
     # has_canonical_pushes thresholds
     fi = repo.lookup_method(ci, 'has_canonical_pushes')
-    guards = [canon_guard(n.test, repo, fi.module, ci) for n in ast.walk(fi.node) if isinstance(n, ast.If)]
-    wantg = ['op > 96', 'op < 76 and op > 0 and len(data) == 1 and data[0] < 17', 'op == 76 and len(data) < 76', 'op == 77 and len(data) < 256', 'op == 78 and len(data) < 65536']
-    guards = [' and '.join(split_and(g)) for g in guards]
-    r.check(guards == wantg and handler_returns(fi, 'CScriptInvalidError', 'False'), 'has_canonical_pushes', fi.site, 'thresholds 0x4c / 0x100 / 0x10000 and the OP_n rule',
-            'has_canonical_pushes tests %s; reference %s' % (guards, wantg))
+    er = element_reject(fi)
+    if er is None:
+        r.undecided('has_canonical_pushes', fi.site, 'not a scan over raw_iter() that answers False on a bad element and True at the end')
+    else:
+        e = ast.parse(rename(er[0], er[1], ['op', 'data', 'idx']), mode='eval').body
+        ref = ('op <= 96 and ((0 < op < 76 and len(data) == 1 and data[0] <= 16) or (op == 76 and len(data) < 76) '
+               'or (op == 77 and len(data) < 256) or (op == 78 and len(data) < 65536))')
+        decide('has_canonical_pushes', fi, e, ref, 'thresholds 0x4c / 0x100 / 0x10000 and the OP_n rule')
+        r.check(handler_returns(fi, 'CScriptInvalidError', 'False'), 'has_canonical_pushes:invalid', fi.site, 'an invalid push answers False', 'has_canonical_pushes does not answer False on an invalid push')
     # is_valid
     fi = repo.lookup_method(ci, 'is_valid')
     ok = handler_returns(fi, 'CScriptInvalidError', 'False') and any(norm(c) == 'list(self)' for c in common.iter_calls(fi.node))
     r.check(ok, 'is_valid', fi.site, 'all pushes parse', 'is_valid is not "iterate everything, False on an invalid push"')
-    # is_witness_scriptpubkey: length window and the size equation
+    # is_witness_scriptpubkey: decided over its complete byte domain.  The predicate is a function of the script length
+    # and its first two bytes only; it is rewritten over (size, u0, u1) - with the signed readings s = u - 256 for u >= 128
+    # where the code unpacks with 'b' - and compared with the BIP141 definition on every (u0, u1) and every length
+    # that any comparison can distinguish.  CScriptOp(x).is_small_int() is replaced by its table (decided by C08.N1).
     fi = repo.lookup_method(ci, 'is_witness_scriptpubkey')
-    guards = [canon_guard(n.test, repo, fi.module, ci) for n in walk_no_nested(fi.node) if isinstance(n, ast.If)]
-    ok = 'size < 4 or size > 42' in guards and canon_text('head[1] + 2 != size') in guards and 'not CScriptOp(head[0]).is_small_int()' in guards
-    r.check(ok, 'is_witness_scriptpubkey', fi.site, '4..42 bytes, version opcode small int, push length + 2 == size', 'is_witness_scriptpubkey guards are %s' % guards)
-    r.note('is_witness_scriptpubkey reads its two header bytes through struct format <bb (signed): version opcodes are below 0x80, so the sign does not matter; the byte conditions themselves are not decided')
+    e = common.return_expr(fi, inline_locals=True)
+    if e is None:
+        r.undecided('is_witness_scriptpubkey', fi.site, 'the body is not a tree of tests and returns')
+    else:
+        from ..rules import _Folder, _copy
+        fe = _Folder(repo, fi.module, fi.cls, None).visit(_copy(e))
+        txt = ast.unparse(fe)
+        subs = [("struct.unpack('<bb', self[:2])[0]", 's0'), ("struct.unpack('<bb', self[:2])[1]", 's1'), ("struct.unpack(b'<bb', self[:2])[0]", 's0'),
+                ("struct.unpack(b'<bb', self[:2])[1]", 's1'), ("struct.unpack('<BB', self[:2])[0]", 'u0'), ("struct.unpack('<BB', self[:2])[1]", 'u1'),
+                ("struct.unpack('bb', self[:2])[0]", 's0'), ("struct.unpack('bb', self[:2])[1]", 's1'), ("struct.unpack('BB', self[:2])[0]", 'u0'),
+                ("struct.unpack('BB', self[:2])[1]", 'u1'), ('len(self)', 'size'), ('self[0]', 'u0'), ('self[1]', 'u1')]
+        for a, b in subs:
+            txt = txt.replace(a, b)
+        txt = re.sub(r'CScriptOp\((\w+)\)\.is_small_int\(\)', r'(\1 == 0 or 81 <= \1 <= 96 or (\1 < 0 and (\1 + 256 == 0 or 81 <= \1 + 256 <= 96)))', txt)
+        names = {n.id for n in ast.walk(ast.parse(txt, mode='eval')) if isinstance(n, ast.Name)}
+        calls = [n for n in ast.walk(ast.parse(txt, mode='eval')) if isinstance(n, (ast.Call, ast.Attribute, ast.Subscript))]
+        if names - {'size', 'u0', 'u1', 's0', 's1'} or calls:
+            r.undecided('is_witness_scriptpubkey', fi.site, 'the predicate reads more than the length and the first two bytes: `%s`' % txt[:160])
+        else:
+            code = compile(ast.parse(txt, mode='eval'), '<predicate>', 'eval')
+            consts = {c.value for c in ast.walk(ast.parse(txt, mode='eval')) if isinstance(c, ast.Constant) and isinstance(c.value, int)}
+            bad = None
+            n_pts = 0
+            for u0 in range(256):
+                for u1 in range(256):
+                    sizes = {2, 3, 4, 5, 41, 42, 43, u1 + 1, u1 + 2, u1 + 3} | {c + d for c in consts for d in (-1, 0, 1) if 2 <= c + d <= 600}
+                    for size in sizes:
+                        if size < 2:
+                            continue
+                        env = {'size': size, 'u0': u0, 'u1': u1, 's0': u0 - 256 if u0 >= 128 else u0, 's1': u1 - 256 if u1 >= 128 else u1}
+                        got = bool(eval(code, {'__builtins__': {}}, env))
+                        want_ = 4 <= size <= 42 and (u0 == 0 or 81 <= u0 <= 96) and u1 + 2 == size
+                        n_pts += 1
+                        if got != want_:
+                            bad = (size, u0, u1, got)
+                            break
+                    if bad:
+                        break
+                if bad:
+                    break
+            r.check(bad is None, 'is_witness_scriptpubkey', fi.site, '4..42 bytes, version opcode OP_0/OP_1..OP_16, push length + 2 == size (%d points)' % n_pts,
+                    'is_witness_scriptpubkey answers %s for a %d-byte script starting %02x %02x; BIP141: 4..42 bytes, first byte OP_0 or OP_1..OP_16, second byte = length - 2'
+                    % (bad[3] if bad else None, bad[0] if bad else 0, bad[1] if bad else 0, bad[2] if bad else 0))
     # witness_version
     fi = repo.lookup_method(ci, 'witness_version')
     rets = [norm(n.value) for n in walk_no_nested(fi.node) if isinstance(n, ast.Return)]
     r.check(rets == ['next(iter(self))'], 'witness_version', fi.site, 'first token', 'witness_version returns %s' % rets)
+
+
+def _in_handler(fi, node):
+    cur = getattr(node, '_parent', None)
+    while cur is not None and cur is not fi.node:
+        if isinstance(cur, ast.ExceptHandler):
+            return True
+        cur = getattr(cur, '_parent', None)
+    return False
 
 
 def handler_returns(fi, excname, value):
@@ -470,11 +640,18 @@ def rule_sigops(ctx, repo, eng):
             dp = tdec.trace(dec.node.body, {'self': v})
             dec_cache[v] = repo.fold(dp[0].endnode.value, dec.module, cls=dec.cls, env={'self': v}) if len(dp) == 1 and dp[0].end == 'return' else None
         return dec_cache[v]
-    tr = Tracer(repo, fi.module, cls=ci)
+    def small_atom(e, path):
+        # <op>.is_small_int() / CScriptOp(<op>).is_small_int() for an opcode variable enumerated in this row
+        m_ = re.match(r'^(?:CScriptOp\()?(\w+)\)?\.is_small_int\(\)$', norm(e))
+        if m_ and small is not None and isinstance(path.env.get(m_.group(1)), int):
+            return int(path.env[m_.group(1)]) in small
+        return None
+    tr = Tracer(repo, fi.module, cls=ci, atom=small_atom)
     sig = {O['OP_CHECKSIG'], O['OP_CHECKSIGVERIFY']}
     multi = {O['OP_CHECKMULTISIG'], O['OP_CHECKMULTISIGVERIFY']}
     body = [s for s in lp.body if not (isinstance(s, ast.Assign) and norm(s.targets[0]) == lastv)]
     bad = {}
+    unfolded = []
     rows = 0
     for acc in (True, False):
         for v in range(256):
@@ -483,7 +660,7 @@ def rule_sigops(ctx, repo, eng):
                 rows += 1
                 paths = tr.trace(body, {opv: v, facc: acc, lastv: lv})
                 if len(paths) != 1:
-                    bad.setdefault('fold', []).append((v, lv, acc, 'guards do not fold'))
+                    unfolded.append((v, lv, acc, sorted({k_ for p_ in paths for k_ in p_.assume})[:2]))
                     continue
                 inc = 0
                 und = None
@@ -511,6 +688,9 @@ def rule_sigops(ctx, repo, eng):
                 elif inc != want:
                     bad.setdefault('%s:%s' % (c06.opn(v), 'accurate' if acc else 'legacy'), []).append((v, lv, acc, 'counts %d, reference %d' % (inc, want)))
     ctx.extra['sigop_rows'] = rows
+    if unfolded:
+        v, lv, acc, atoms = unfolded[0]
+        r.undecided('rows', common.site_of(fi, lp), '%d rows do not fold (first: %s after %s, %s mode; conditions %s)' % (len(unfolded), c06.opn(v), c06.opn(lv), 'accurate' if acc else 'legacy', atoms))
     for k in ['%s:%s' % (c06.opn(v), m) for v in sorted(sig | multi) for m in ('accurate', 'legacy')] + ['other-opcodes']:
         if k == 'other-opcodes':
             b = [x for kk, xs in bad.items() for x in xs if x[0] not in sig | multi]
